@@ -1,7 +1,8 @@
 (* C10 — model of numbat/src/tokenizer.rs (Tokenizer::scan, scan_single_token,
    consume_stream_of_digits, scientific_notation, consume_string) on code
-   points.  String interpolation (`{…}` inside a string) is outside the model:
-   it is the explicit result LUnsupported.  The Unicode identifier classes
+   points.  The scope stack of the tokenizer (Curly / String scopes) is a list of
+   booleans, one per open Curly scope: true = the scope was opened by a string
+   (a string part that ends in an opening brace), i.e. it sits directly on a String scope (is_inside_interpolation).  The Unicode identifier classes
    XID_Start / XID_Continue are parameters of the section; `Exec.v`
    instantiates them on a listed set of characters.  No proofs here. *)
 From Coq Require Import List NArith ZArith Bool.
@@ -13,7 +14,8 @@ Inductive lexerr :=
 | UnexpectedCharacter | UnexpectedCharacterInNegativeExponent
 | UnexpectedCharacterInNumberLiteral | UnexpectedCharacterInIdentifier
 | ExpectedDigit | ExpectedDigitInBase | UnterminatedString
-| UnexpectedScopeClosing.
+| UnexpectedScopeClosing
+| UnterminatedStringInterpolation | UnexpectedCurlyInInterpolation.
 
 Inductive lres (A : Type) := LOk (a : A) | LErr (e : lexerr) | LUnsupported | LOutOfFuel.
 Arguments LOk {A}. Arguments LErr {A}. Arguments LUnsupported {A}. Arguments LOutOfFuel {A}.
@@ -168,15 +170,23 @@ Section Scan.
       then LErr ExpectedDigitInBase
       else LOk (Some (TIntBase base (prefix ++ ds)), rest).
 
-  (* Tokenizer::scan_single_token after the comment skip; `depth` = number of open `{` scopes.
-     Returns the token (None for blanks), the rest and the new depth. *)
-  Definition scan_single_token (depth : nat) (cs : str) : lres (option token * str * nat) :=
+  (* Tokenizer::scan_single_token after the comment skip; `depth` = the open Curly scopes (innermost
+     first, true = opened inside a string), `last` = the previous token (Tokenizer::last_token).
+     Returns the token (None for blanks), the rest and the new scope stack. *)
+  Definition inside_interpolation (depth : list bool) : bool :=
+    match depth with true :: _ => true | _ => false end.
+  Definition last_ends_string (last : option token) : bool :=
+    match last with Some (TString _) | Some (TInterpEnd _) | Some (TIdent _) => true | _ => false end.
+
+  Definition scan_single_token (depth : list bool) (last : option token) (cs : str)
+    : lres (option token * str * list bool) :=
     let ret (x : lres (option token * str)) :=
       match x with
       | LOk (t, r) => LOk (t, r, depth)
       | LErr e => LErr e | LUnsupported => LUnsupported | LOutOfFuel => LOutOfFuel
       end in
     let tok (t : token) (r : str) := LOk (Some t, r, depth) in
+    let inside := inside_interpolation depth in
     match cs with
     | [] => LOk (None, [], depth)
     | c :: r =>
@@ -184,9 +194,9 @@ Section Scan.
         else if c =? 41 then tok TRParen r
         else if c =? 91 then tok TLBracket r
         else if c =? 93 then tok TRBracket r
-        else if c =? 123 then LOk (Some TLCurly, r, S depth)
-        else if c =? 125 then
-          match depth with O => LErr UnexpectedScopeClosing | S d => LOk (Some TRCurly, r, d) end
+        else if (c =? 123) && negb inside then LOk (Some TLCurly, r, false :: depth)
+        else if (c =? 125) && negb inside then
+          match depth with [] => LErr UnexpectedScopeClosing | _ :: d => LOk (Some TRCurly, r, d) end
         else if c =? 8804 then tok TLessOrEqual r
         else if c =? 60 then match r with 61 :: r' => tok TLessOrEqual r' | _ => tok TLessThan r end
         else if c =? 8805 then tok TGreaterOrEqual r
@@ -240,13 +250,29 @@ Section Scan.
           | [] => LErr UnexpectedCharacterInNegativeExponent
           end
         else if is_exponent_char c then tok (TUnicodeExponent [c]) r
+        else if (c =? 34) && inside && last_ends_string last then LErr UnterminatedStringInterpolation
         else if c =? 34 then
           let (body, rest) := consume_string (length r) false r in
           match rest with
           | 34 :: rest' => tok (TString (c :: body ++ [34])) rest'
-          | 123 :: _ => LUnsupported
+          | 123 :: rest' => LOk (Some (TInterpStart (c :: body ++ [123])), rest', true :: depth)
           | _ => LErr UnterminatedString
           end
+        else if (c =? 58) && inside then
+          let (body, rest) := span_while (fun x => negb (x =? 34) && negb (x =? 125)) r in
+          match rest with
+          | 34 :: _ => LErr UnterminatedStringInterpolation
+          | 125 :: _ => tok (TInterpSpec (c :: body)) rest
+          | _ => LErr UnterminatedString
+          end
+        else if (c =? 125) && inside then
+          let (body, rest) := consume_string (length r) false r in
+          match rest with
+          | 34 :: rest' => LOk (Some (TInterpEnd (c :: body ++ [34])), rest', tl depth)
+          | 123 :: rest' => LOk (Some (TInterpMiddle (c :: body ++ [123])), rest', depth)
+          | _ => LErr UnterminatedString
+          end
+        else if (c =? 123) && inside then LErr UnexpectedCurlyInInterpolation
         else if c =? 8230 then tok TEllipsis r
         else if is_identifier_start c then
           let (body, rest) := span_while is_identifier_continue r in
@@ -269,16 +295,16 @@ Section Scan.
     end.
 
   (* Tokenizer::scan *)
-  Fixpoint scan (n : nat) (depth : nat) (cs : str) : lres (list token) :=
+  Fixpoint scan (n : nat) (depth : list bool) (last : option token) (cs : str) : lres (list token) :=
     match n with
     | O => LOutOfFuel
     | S n =>
         match cs with
         | [] => LOk []
         | _ =>
-            match scan_single_token depth (skip_comment cs) with
+            match scan_single_token depth last (skip_comment cs) with
             | LOk (t, rest, depth') =>
-                match scan n depth' rest with
+                match scan n depth' (match t with Some _ => t | None => last end) rest with
                 | LOk ts => LOk (match t with Some t => t :: ts | None => ts end)
                 | e => e
                 end
@@ -289,5 +315,5 @@ Section Scan.
         end
     end.
 
-  Definition tokenize (cs : str) : lres (list token) := scan (S (length cs)) 0 cs.
+  Definition tokenize (cs : str) : lres (list token) := scan (S (length cs)) [] None cs.
 End Scan.
